@@ -57,17 +57,27 @@ def c16(out, kmax_exh, nsample, seed, ngen):
     # first a list whose gates are pairwise compatible, then lists (same length, same subgroup size) whose gates all collide
     lead_runs = [([0, 6, 17, 23], 2), ([10, 11, 12, 13], 2), ([0, 6, 17, 23, 8, 15], 3), ([10, 11, 12, 13, 4, 5], 3)]
     # edge lists whose length is not a multiple of the subgroup size (nothing can use every gate exactly once in full steps)
+    # steps made only of D3-Z2 / D7-Z3 need no parking at all
+    nopark = [i for i, e in enumerate(edges) if sorted(pair(e)) in (['D3', 'Z2'], ['D7', 'Z3'])]
+    other = [i for i, e in enumerate(edges) if sorted(pair(e)) in (['D1', 'X1'], ['D9', 'X4'])]
+    nopark_runs = [(nopark + other, 1), (nopark + other, 2), (other[:1] + nopark, 1)] if len(nopark) == 2 and len(other) == 2 else []
     odd_runs = [([0, 1, 2], 2), ([0, 6, 17, 23, 8], 2), ([10, 11, 12, 13], 3), ([0, 6], 3), ([4, 5, 8, 9, 17], 3)]
-    for idx, size in lead_runs + runs[:ngen] + perm_runs + odd_runs:
+    for idx, size in lead_runs + runs[:ngen] + perm_runs + odd_runs + nopark_runs:
         es = [edges[i] for i in idx]
 
         def gen_row(es=es, size=size):
             gen = GateSequenceGenerator(included_edge_ids=es, connectivity=S)
             ident = gen.construct_allowed_gate_sequences(subgroup_size=size)
-            seqs = []
+            seqs, parks, exported = [], [], []
             for seq in ident.construct_operation_sequences():
                 seqs.append([[pair(op.identifier) for op in step] for step in seq.gate_operations])
-            r = {'t': 'generator', 'edges': [pair(e) for e in es], 'size': size, 'count': int(ident.length), 'sequences': seqs[:400]}
+                if len(seqs) <= 60:
+                    # what the sequence reports per step as requiring parking, and the layout object it exports
+                    parks.append([[op.identifier.id for op in step] for step in seq.get_required_parkings(S)])
+                    g = seq.to_generic_surface_code(S)
+                    exported.append([{'gates': [pair(op.identifier) for op in g.get_gate_sequence_at_index(i).gate_operations],
+                                      'parks': [op.identifier.id for op in g.get_gate_sequence_at_index(i).park_operations]} for i in range(g.gate_sequence_count)])
+            r = {'t': 'generator', 'edges': [pair(e) for e in es], 'size': size, 'count': int(ident.length), 'sequences': seqs[:400], 'parks': parks, 'exported': exported}
             r['count'] = len(r['sequences']) if ident.length > 400 else int(ident.length)
             return r
         rows.append(guarded(gen_row, _label='generator %s size %d' % ([pair(e) for e in es], size)))
